@@ -292,6 +292,46 @@ def _p_transits(m, a):
     return set_transit_compartments(m, 1 + a % 3)
 
 
+def _with_generic_fallback(fn):
+    def g(m, a):
+        from pharmpy.modeling import convert_model
+
+        try:
+            return fn(m, a)
+        except Exception:  # noqa  (NONMEM code generation of the intermediate models is not under test here)
+            return fn(convert_model(m, 'generic'), a)
+
+    g.__name__ = fn.__name__
+    return g
+
+
+def _p_mu_then_iiv(m, a):
+    """history: mu_reference_model, then IIV on a parameter that had none (a later mu_reference_model must cope)"""
+    from pharmpy.modeling import add_iiv, get_individual_parameters, mu_reference_model
+
+    m1 = mu_reference_model(m)
+    allp = list(get_individual_parameters(m1))
+    with_rv = set(get_individual_parameters(m1, 'random'))
+    cands = [p for p in allp if p not in with_rv] or allp
+    return add_iiv(m1, _pick(cands, a), 'exp')
+
+
+def _p_remove_mu_iiv(m, a):
+    """history: remove an IIV, mu_reference_model, add the IIV back"""
+    from pharmpy.modeling import add_iiv, mu_reference_model, remove_iiv
+
+    names = list(m.random_variables.iiv.names)
+    eta = _pick(names, a)
+    before = set(_ind_params(m))
+    m1 = remove_iiv(m, [eta])
+    m2 = mu_reference_model(m1)
+    from pharmpy.modeling import get_individual_parameters
+
+    with_rv = set(get_individual_parameters(m2, 'random'))
+    cands = [p for p in get_individual_parameters(m2) if p not in with_rv]
+    return add_iiv(m2, _pick(cands, a // 3), 'exp')
+
+
 def _p_generic(m, a):
     from pharmpy.modeling import convert_model
 
@@ -330,6 +370,12 @@ PRIORS = [
     ('remove_iiv', _p_remove_iiv),
     ('to_generic', _p_generic),
     ('to_generic', _p_generic),
+    ('add_bioavailability', _simple('add_bioavailability')),
+    ('add_lag_time', _simple('add_lag_time')),
+    ('mu_reference_then_add_iiv', _with_generic_fallback(_p_mu_then_iiv)),
+    ('mu_reference_then_add_iiv', _with_generic_fallback(_p_mu_then_iiv)),
+    ('remove_iiv_mu_reference_add_iiv', _with_generic_fallback(_p_remove_mu_iiv)),
+    ('cleanup_model', _simple('cleanup_model')),
 ]
 
 
@@ -543,7 +589,7 @@ def _show(x):
     return 'UNDEFINED' if x is ME.UNDEF else x
 
 
-def compare_values(a, b, varmap, core_names, rtol=RTOL):
+def compare_values(a, b, varmap, core_names, rtol=RTOL, may_remove=True):
     """a = value of M, b = value of r(M). -> None | (kind, name, observed, expected)
     kind in y / indpar / var / ode"""
     # quantities without value in M (a symbol read before it is assigned on this path: Piecewise without matching
@@ -556,12 +602,21 @@ def compare_values(a, b, varmap, core_names, rtol=RTOL):
             continue
         if not _same(v, b.y[nd], rtol):
             return ('y', dv, _show(b.y[nd]), _show(v))
+    # anything of the ODE system (rhs, dose, lag time, bioavailability) that has a value in M must have one in r(M):
+    # an undefined symbol there is a violation, never a silently skipped value
+    for what, why in b.undefined.items():
+        if what.startswith(('lag/bio ', 'dose ')) or (what.startswith('d') and what.endswith('/dt')):
+            if what not in a.undefined:
+                part = 'lag-bio' if what.startswith('lag/bio') else ('dose' if what.startswith('dose') else 'rhs')
+                return ('ode', f'undefined:{part}', f'{what} uses {why}, which nothing defines', 'defined as in M')
     oa = ME.ModelValue(rhs=a.rhs, doses=a.doses, lag=a.lag, bio=a.bio)
     res = ME.compare(oa, b, rtol=rtol, check_ode=True)
     if res is not None:
         return ('ode', res[0], _show(res[1]) if not isinstance(res[1], (list, str)) else res[1], _show(res[2]) if not isinstance(res[2], (list, str)) else res[2])
     for n, v in a.vars.items():
         nn = varmap.get(n, n)
+        if nn not in b.vars and not may_remove:
+            return ('var-lost', n, 'not assigned any more', _show(v))
         if nn not in b.vars or v is ME.UNDEF:
             continue  # no longer assigned (cleanup_model removes aliases) / no value in M
         if not _same(v, b.vars[nn], rtol):
@@ -955,14 +1010,15 @@ def run_refactor(spec):
         p2 = map_point(p, m2, ref.pmap, ref.rvmap)
         vb = ME.evaluate(m2, p2)
         tried += 1
-        res = compare_values(va, vb, ref.varmap, core)
+        # only cleanup_model documents that it removes statements (aliases); conversion to NONMEM may rename/add
+        res = compare_values(va, vb, ref.varmap, core, may_remove=rname in ('cleanup_model', 'generic_to_nonmem'))
         if res is not None:
-            if not stable_at(m, p, va):
+            if res[0] != 'var-lost' and not stable_at(m, p, va):
                 continue
             kind, name, obs, exp = res
             cond = mu_cond or decl_cond
             raise Violation(
-                f'refactor:{rname}:{cond}{kind}',
+                f'refactor:{rname}:{cond}{kind}' + (':' + name if kind == 'ode' and str(name).startswith('undefined') else ''),
                 observed=obs,
                 expected=exp,
                 detail=f'{kind} {name} differs at sample {k0 + i} after {rname} {ref.note}\n--- M ({", ".join(labels)}):\n{stmts_key(m)}\n--- r(M):\n{stmts_key(m2)}',
@@ -1553,6 +1609,15 @@ def run_evaluators(spec):
         for n in etas:
             if n in zr:
                 eta_df[n] = 0.0
+        # models WITH initial individual estimates (different from the etas passed below): the documented precedence is
+        # 'at the current eta values or optionally at the given eta values' -- explicitly given etas win
+        if etas and int(spec.get('a') or 0) % 2 == 0:
+            iie = pd.DataFrame({n: [0.45 * math.cos(0.3 + 1.1 * j + 0.9 * a) for a, _ in enumerate(ids)] for j, n in enumerate(etas)}, index=ids)
+            try:
+                ms = ms.replace(initial_individual_estimates=iie)
+                classes.append('initial-individual-estimates')
+            except Exception:  # noqa  (setting the attribute is not under test)
+                pass
 
         def row_point(r, with_etas):
             data = {}
